@@ -294,6 +294,8 @@ FAIL_OWNERS = [
     ("control.isActive<TState>()", ("C06", "C14")),
     ("FAIL: isActive<TState>()", ("C01", "C14")),
     ("FAIL:plan-", ("C10",)),
+    ("SerialBuffer operator==", ("C12",)),
+    ("Transition operator==", ("C07", "C11")),
     ("CORRUPT", ("C07",)),
 ]
 SEE_ALL = ("C18", "C19", "ALL")
